@@ -12,7 +12,7 @@ POOL = [
     ("i63", "(2^63-1)", "int", "big"), ("ni63", "(0-2^63)", "int", "big"), ("ni63s", "int(\"-9223372036854775808\")", "int", "big"), ("i63s", "int(\"9223372036854775807\")", "int", "big"), ("i64", "2^64", "int", "big"), ("m20", "2^20", "int", "big"),
     # machine-word operands whose product / sum leaves the machine word: 2^32-1 and ceil(sqrt(2^63))
     ("i32m", "4294967295", "int", "big"), ("isq63", "3037000500", "int", "big"),
-    ("bigone", "(%d - %d)" % (2 ** 70 + 1, 2 ** 70), "int", ""),
+    ("bigone", "(%d - %d)" % (2 ** 70 + 1, 2 ** 70), "int", ""), ("bigzero", "(2^64 - 2^64)", "int", ""),
     ("half", "(1/2)", "rational", ""), ("nrat", "(0-3/2)", "rational", ""), ("rint", "(4/2)", "rational", ""),
     ("fzero", "0.0", "float", ""), ("f15", "1.5", "float", ""), ("fneg", "(0.0-2.5)", "float", ""), ("inf", "(1.0/0.0)", "float", "big"),
     ("nan", "(0.0/0.0)", "float", ""), ("f1e30", "1e30", "float", "big"),
@@ -21,6 +21,7 @@ POOL = [
     ("lempty", "[]", "list", ""), ("l123", "[1, 2, 3]", "list", ""), ("lnest", "[[1, 2], [3, 4]]", "list", ""), ("lstr", '["a", "b"]', "list", ""),
     ("lzero", "[0]", "list", ""), ("lmixed", '[1, "a", null]', "list", ""), ("lpair", "[[1, 2]]", "list", ""),
     ("dempty", "{}", "dict", ""), ("dsa", '{"a": 1}', "dict", ""), ("ddef", "{:0, 1: 2}", "dict", ""), ("dset", "{1, 2}", "dict", ""),
+    ("dfn", "{1: len}", "dict", ""),     # hashable keys, unhashable value: not usable as a key itself
     ("vempty", "V()", "vector", ""), ("v12", "V(1, 2)", "vector", ""), ("vf", "V(1.5, 0)", "vector", ""),
     ("bempty", 'B""', "bytes", ""), ("bff", "B[255, 1]", "bytes", ""), ("butf", "B[104, 105]", "bytes", ""),
     ("rng", "(1 to 3)", "stream", ""), ("rempty", "(1 to 0)", "stream", ""), ("wrapped", "stream([1, 2])", "stream", ""),
@@ -30,7 +31,7 @@ POOL = [
 ]
 
 # reduced pool for quick tiers: one or two representatives per kind plus the classic faults
-QUICK = ["zero", "one", "neg1", "i63", "ni63", "ni63s", "i64", "i32m", "isq63", "half", "f15", "nan", "inf", "cplx", "sempty", "su", "lempty", "l123", "lnest", "lmixed",
+QUICK = ["zero", "one", "neg1", "i63", "ni63", "ni63s", "i64", "i32m", "isq63", "bigzero", "dfn", "half", "f15", "nan", "inf", "cplx", "sempty", "su", "lempty", "l123", "lnest", "lmixed",
          "dempty", "ddef", "vempty", "v12", "bempty", "bff", "rng", "rempty", "null", "finc", "fthrow", "tint"]
 
 # builtins for which a huge integer argument requests a huge amount of memory/time (resource, not semantics)
